@@ -218,7 +218,8 @@ func genGC(g *lib.RNG, faults bool) []Op {
 	lag := uint64(lib.Pick(g, []int{0, 1, 1, 3}))
 	cleanups := 0
 	wantCleanups := lib.Pick(g, []int{1, 1, 1, 2})
-	restartEvery := lib.Pick(g, []int{0, 0, 90, 300})
+	restartEvery := lib.Pick(g, []int{0, 0, 0, 280, 400})
+	earlyRestart := g.Intn(3) == 0
 	for it := 0; it < 1500 && cleanups < wantCleanups; it++ {
 		if !s.alive || s.closed {
 			s.open()
@@ -253,7 +254,7 @@ func genGC(g *lib.RNG, faults bool) []Op {
 			s.committed("")
 		}
 		s.cur++
-		if restartEvery > 0 && it%restartEvery == restartEvery-1 {
+		if (restartEvery > 0 && it%restartEvery == restartEvery-1) || (earlyRestart && it == 37) {
 			if g.Bool() {
 				s.emit(Op{K: "close"})
 				s.committed("")
